@@ -22,85 +22,131 @@ def idle(ob):
 
 # ------------------------------------------------------------------ monitors over one observed run
 def monitor(cfg, events, trace, obs):
-    """obs: Driver.observe() after every step (None for a model trace: only the trace-level parts are checked)"""
+    """obs: Driver.observe() after every step (None for a model trace: only the trace-level parts are checked).
+    API calls made from inside the processor are recognised through the plan the harness itself queued (EV_PLAN)."""
     bad = []
     steps, ends = L.split_steps(trace)
     if len(steps) != len(events):
         return [("trace", len(steps), "trace has %d steps for %d events" % (len(steps), len(events)))]
-    startd = None           # None: no start Deferred; False: pending; True: fired
-    stopped_clean = False   # a stop()/shutdown completed and since then neither start() nor a manual commit()
-    shut_pending = 0        # shutdown Deferreds handed out and not yet fired
-    nstart = 0
+    st = {"startd": None,          # None: no start Deferred; False: pending; True: fired
+          "clean": False,          # a stop()/shutdown completed and since then neither start() nor a manual commit()
+          "shut_pending": 0,       # shutdown Deferreds handed out and not yet fired
+          "waiting": False}        # an accepted shutdown() is waiting for the processor result that was pending
+    plan = []
+
+    def stop_returned(i, pos, outs, value, who):
+        later = [o for o in outs[pos + 1:] if o[0] in L.ACTIVITY]
+        if later:
+            bad.append(("C13_quiescent_after_stop", i, "%s returned and then %r was sent / scheduled / delivered in the same step" % (who, later[:3])))
+        if obs is not None and not idle(obs[i]):
+            bad.append(("C13_quiescent_after_stop", i, "%s returned but something is still running: %r" % (who, obs[i])))
+        if st["startd"] is False:
+            bad.append(("C13_start_once", i, "%s returned but the start Deferred has not fired" % who))
+        if st["shut_pending"]:
+            bad.append(("C13_shutdown_once", i, "%s returned while a shutdown Deferred is still pending" % who))
+        st["startd"], st["clean"], st["waiting"] = None, True, False
+
     for i, (ev, outs) in enumerate(zip(events, steps)):
         t = ev[0]
         acts = [o for o in outs if o[0] in L.ACTIVITY]
         raised = [o[1] for o in outs if o[0] == L.OUT_RAISED]
+        if t == L.EV_PLAN:
+            plan.append((ev[1], ev[2]))
         accepted_start = t == L.EV_START and any(o == (L.OUT_RET, 0) for o in outs) and L.X_RESTART not in raised
         # ---- C13_quiescent_closed: nothing happens between a completed stop and the next start()
-        if stopped_clean and not accepted_start and t != L.EV_COMMIT:
+        if st["clean"] and not accepted_start and t != L.EV_COMMIT:
             if acts:
                 bad.append(("C13_quiescent_closed", i, "activity %r after stop returned (event %s)" % (acts[:3], L.EV_NAMES[t])))
             if obs is not None and not idle(obs[i]):
                 bad.append(("C13_quiescent_closed", i, "something is running after stop returned: %r" % (obs[i],)))
         if t == L.EV_COMMIT:
-            stopped_clean = False
+            st["clean"] = False
         if accepted_start:
-            if startd is False:
+            if st["startd"] is False:
                 bad.append(("C13_start_once", i, "start() accepted while the previous start Deferred is still pending"))
-            startd, stopped_clean = False, False
-            nstart += 1
+            st["startd"], st["clean"] = False, False
             # ---- C13_restartable: the (re)started consumer sends its first request in the same call
             if not any(o[0] in (L.OUT_FETCH, L.OUT_OFFREQ, L.OUT_OFFFETCH) for o in outs):
                 bad.append(("C13_restartable", i, "start() returned without sending a request"))
-        if t == L.EV_SHUTDOWN and (L.OUT_RET, 0) in outs and not any(o[0] == L.OUT_SHUTDOWN_D and o[1] == 0 and o[2] == L.X_RESTOP for o in outs):
-            shut_pending += 1
-        # ---- C13_start_once
-        for o in outs:
-            if o[0] == L.OUT_START_D:
-                if startd is not False:
+        # ---- graceful shutdown waits for the processing in progress (top-level shutdown() with a processor result pending)
+        if t == L.EV_SHUTDOWN and (L.OUT_RET, 0) in outs and \
+                not any(o[0] == L.OUT_SHUTDOWN_D and o[1] == 0 and o[2] == L.X_RESTOP for o in outs):
+            st["shut_pending"] += 1
+            if obs is not None and i > 0 and obs[i - 1]["procs_pending"] > 0:
+                st["waiting"] = True
+        if st["waiting"] and t != L.EV_STOP:
+            for o in outs:
+                if o[0] == L.OUT_CANCEL_PROC or (o[0] == L.OUT_SHUTDOWN_D and not (o[1] == 0 and o[2] == L.X_RESTOP)) or \
+                        (o[0] == L.OUT_START_D and o[1] == 1):
+                    if not (t == L.EV_PROC_FIRE and outs[:1] != [(L.OUT_IGNORED,)]):
+                        bad.append(("C13_shutdown_waits", i, "shutdown() did not wait for the processing in progress: %r during %s" % (o, L.EV_NAMES[t])))
+        if t == L.EV_PROC_FIRE and outs[:1] != [(L.OUT_IGNORED,)]:
+            st["waiting"] = False
+        # ---- walk the outputs in order
+        inside = 0          # API call the processor is making right now (0: none)
+        top_call = {L.EV_STOP: 1, L.EV_COMMIT: 2, L.EV_SHUTDOWN: 3}.get(t, 0)
+        for pos, o in enumerate(outs):
+            tag = o[0]
+            if tag == L.OUT_CALLPROC:
+                inside = (plan.pop(0) if plan else (0, 2))[0]
+                if inside == 3:       # shutdown() from inside the processor: accepted unless it fails with RestopError below
+                    pass
+            elif tag == L.OUT_START_D:
+                if st["startd"] is not False:
                     bad.append(("C13_start_once", i, "start Deferred outcome %r reported while none is pending" % (o,)))
-                startd = True
-            if o[0] == L.OUT_SHUTDOWN_D and not (o[1] == 0 and o[2] == L.X_RESTOP):
-                shut_pending -= 1
-                if shut_pending < 0:
+                st["startd"] = True
+            elif tag == L.OUT_SHUTDOWN_D and not (o[1] == 0 and o[2] == L.X_RESTOP):
+                # a shutdown() made inside the processor fires (or is accepted) in the same step: count it when it fires
+                if st["shut_pending"] == 0 and inside == 3:
+                    st["shut_pending"] = 1
+                st["shut_pending"] -= 1
+                if st["shut_pending"] < 0:
                     bad.append(("C13_shutdown_once", i, "shutdown Deferred fired more often than shutdown() was accepted"))
-                    shut_pending = 0
+                    st["shut_pending"] = 0
                 # ---- C13_shutdown_commits: success with a group => last committed == last processed
                 if o[1] == 1 and cfg.group and not (o[2] == L.NONE or o[3] == o[2]):
                     bad.append(("C13_shutdown_commits", i, "shutdown succeeded with last_processed %d but last_committed %d" % (o[2], o[3])))
-                if o[1] == 1:
-                    if ends[i][0] != o[2]:
-                        bad.append(("C13_shutdown_commits", i, "shutdown Deferred value %d is not last_processed_offset %d" % (o[2], ends[i][0])))
-                    if startd is False:
-                        bad.append(("C13_start_once", i, "shutdown completed but the start Deferred has not fired"))
-                    if obs is not None and not idle(obs[i]):
-                        bad.append(("C13_quiescent_after_stop", i, "shutdown completed but something is still running: %r" % (obs[i],)))
-                    stopped_clean = True
-        # ---- C13_quiescent_after_stop
-        if t == L.EV_STOP:
-            ret = [o for o in outs if o[0] == L.OUT_RET]
-            if ret:
-                if acts:
-                    bad.append(("C13_quiescent_after_stop", i, "stop() sent / scheduled / delivered %r" % (acts[:3],)))
+                if o[1] == 1 and ends[i][0] != o[2]:
+                    bad.append(("C13_shutdown_commits", i, "shutdown Deferred value %d is not last_processed_offset %d" % (o[2], ends[i][0])))
+                # success or failure: the consumer has been stopped (an interruption by stop() is reported from inside that stop())
+                interrupted = o[1] == 0 and o[2] == L.FK_CANCELLED
+                if st["startd"] is False and not interrupted:
+                    bad.append(("C13_start_once", i, "shutdown ended (%s) but the start Deferred has not fired" % ("ok" if o[1] else "failure %d" % o[2])))
                 if obs is not None and not idle(obs[i]):
-                    bad.append(("C13_quiescent_after_stop", i, "stop() returned but something is still running: %r" % (obs[i],)))
-                if ret[-1][1] != ends[i][0]:
-                    bad.append(("C13_quiescent_after_stop", i, "stop() returned %d, last_processed_offset is %d" % (ret[-1][1], ends[i][0])))
-                if startd is False:
-                    bad.append(("C13_start_once", i, "stop() returned but the start Deferred has not fired"))
-                for o in outs:
-                    if o[0] == L.OUT_START_D and o[1] == 1 and o[2] != ret[-1][1]:
-                        bad.append(("C13_quiescent_after_stop", i, "start Deferred fired with %d, stop() returned %d" % (o[2], ret[-1][1])))
-                    if o[0] == L.OUT_START_D and o[1] == 0:
-                        # C13_start_once / C13_quiescent_after_stop: the cancellations stop() itself causes are not failures of the consumer
-                        bad.append(("C13_start_once", i, "stop() made the start Deferred FAIL (failure kind %d) instead of firing it with last_processed_offset %d" % (o[2], ret[-1][1])))
-                if shut_pending:
-                    bad.append(("C13_shutdown_once", i, "stop() returned while a shutdown Deferred is still pending"))
-                startd, stopped_clean = None, True
-            elif raised and raised != [L.X_RESTOP]:
-                bad.append(("C13_stop_returns", i, "stop() raised %r on a running consumer" % (raised,)))
-            elif raised == [L.X_RESTOP] and startd is False:
-                bad.append(("C13_stop_not_running", i, "stop() raised RestopError although the consumer is running"))
+                    bad.append(("C13_quiescent_after_stop", i, "shutdown ended (%s) but something is still running: %r" % ("ok" if o[1] else "failure %d" % o[2], obs[i])))
+                st["waiting"] = False
+                if not interrupted:
+                    st["clean"] = True
+                    if st["startd"] is True:
+                        st["startd"] = None
+            elif tag in (L.OUT_RET, L.OUT_RAISED):
+                who = inside if inside else top_call
+                if inside:
+                    inside_now, inside = inside, 0
+                else:
+                    inside_now = 0
+                if who == 3 and inside_now == 3 and tag == L.OUT_RET:
+                    # shutdown() inside the processor returned a pending Deferred
+                    if not any(x[0] == L.OUT_SHUTDOWN_D for x in outs[:pos]):
+                        st["shut_pending"] += 1
+                if who == 1:
+                    name = "stop() inside the processor" if inside_now else "stop()"
+                    if tag == L.OUT_RET:
+                        if not inside_now:
+                            if acts:
+                                bad.append(("C13_quiescent_after_stop", i, "stop() sent / scheduled / delivered %r" % (acts[:3],)))
+                            if o[1] != ends[i][0]:
+                                bad.append(("C13_quiescent_after_stop", i, "stop() returned %d, last_processed_offset is %d" % (o[1], ends[i][0])))
+                        for x in outs[:pos]:
+                            if x[0] == L.OUT_START_D and x[1] == 1 and x[2] != o[1] and not inside_now:
+                                bad.append(("C13_quiescent_after_stop", i, "start Deferred fired with %d, stop() returned %d" % (x[2], o[1])))
+                            if x[0] == L.OUT_START_D and x[1] == 0 and not inside_now:
+                                bad.append(("C13_start_once", i, "stop() made the start Deferred FAIL (failure kind %d) instead of firing it with last_processed_offset %d" % (x[2], o[1])))
+                        stop_returned(i, pos, outs, o[1], name)
+                    elif o[1] != L.X_RESTOP:
+                        bad.append(("C13_stop_returns", i, "%s raised %d on a running consumer" % (name, o[1])))
+                    elif st["startd"] is False:
+                        bad.append(("C13_stop_not_running", i, "%s raised RestopError although the consumer is running" % name))
     return bad
 
 
